@@ -330,6 +330,16 @@ fn run_shard(sh: &Shard, tier: Tier, f: &mut dyn FnMut(Group)) {
                 let v = V::obj(vec![("k", V::Str("a".repeat(total - 8)))]);
                 f(value_group(format!("large/obj/{total}-bytes"), &v, &[(0, 0)], false));
             }
+            // top-level keys that the signing form treats specially, in every combination
+            for mask in 1u32..16 {
+                let mut members = vec![];
+                for (i, k) in ["signatures", "unsigned", "hashes", "a"].iter().enumerate() {
+                    if mask & (1 << i) != 0 {
+                        members.push((*k, V::obj(vec![("x", V::Int(i as i64)), ("signatures", V::Int(1))])));
+                    }
+                }
+                f(value_group(format!("signing-form/keys-{mask:04b}"), &V::obj(members), &[(0, 0), (1, 1)], false));
+            }
             let v = V::obj(vec![("k", V::Arr((0..33_000).map(|_| V::Int(1)).collect()))]);
             f(value_group("large/obj-arr/about-66000-bytes".into(), &v, &[(0, 0)], false));
             for (s, cls) in &scalars {
@@ -577,15 +587,24 @@ fn eval(g: &Group, t: &mut Tally) -> (Vec<(String, String)>, Vec<String>) {
         }
         // observation point 4: ruma_signatures::canonical_json (objects; others wrapped)
         t.transitions += 1;
+        // (the function is the "signing form": top-level `signatures` and `unsigned` are left out, whichever
+        // of the two is present; everything else, `hashes` included, stays)
         let (obj, wrapped): (CanonicalJsonObject, bool) = match &val {
-            CanonicalJsonValue::Object(o) if !o.contains_key("signatures") && !o.contains_key("unsigned") => {
-                (o.clone(), false)
-            }
+            CanonicalJsonValue::Object(o) => (o.clone(), false),
             other => ([("w".to_owned(), other.clone())].into_iter().collect(), true),
         };
         match catch(|| ruma_signatures::canonical_json(&obj)) {
             Ok(Ok(s)) => {
-                let want = if wrapped { format!("{{\"w\":{ser}}}") } else { ser.clone() };
+                let want = if wrapped {
+                    format!("{{\"w\":{ser}}}")
+                } else if obj.contains_key("signatures") || obj.contains_key("unsigned") {
+                    let mut o = obj.clone();
+                    o.remove("signatures");
+                    o.remove("unsigned");
+                    serde_json::to_string(&o).unwrap_or_default()
+                } else {
+                    ser.clone()
+                };
                 if s != want {
                     viol.push((
                         format!("signatures-canonical_json/differs/{cls}"),
